@@ -6,6 +6,7 @@ K = "testtools.matchers._const:"
 
 
 def register(R):
+    from specs.a_common import matcher
     # leaf relations of Python's data model on arbitrary values
     for op in ("eq", "ne", "lt", "gt", "is"):
         R.function("leaf_" + op, ["val", "val"], "bool")
@@ -13,11 +14,11 @@ def register(R):
     R.function("leaf_contains_typeerror", ["val", "val"], "bool")
     R.function("leaf_startswith", ["val", "val"], "bool")
     R.function("leaf_endswith", ["val", "val"], "bool")
-    R.library("operator.eq", signature="a, b", returns="bool", pure=True, noalloc=True, ensures=["result == leaf_eq(a, b)"])
-    R.library("operator.ne", signature="a, b", returns="bool", pure=True, noalloc=True, ensures=["result == leaf_ne(a, b)"])
-    R.library("operator.is_", signature="a, b", returns="bool", pure=True, noalloc=True, ensures=["result == (a is b)"])
-    R.library("operator.__lt__", signature="a, b", returns="bool", pure=True, noalloc=True, exsures=["True"], ensures=["result == leaf_lt(a, b)"])
-    R.library("operator.__gt__", signature="a, b", returns="bool", pure=True, noalloc=True, exsures=["True"], ensures=["result == leaf_gt(a, b)"])
+    R.library("operator.eq", signature="a, b", returns="bool", noalloc=True, ensures=["result == leaf_eq(a, b)"])
+    R.library("operator.ne", signature="a, b", returns="bool", noalloc=True, ensures=["result == leaf_ne(a, b)"])
+    R.library("operator.is_", signature="a, b", returns="bool", noalloc=True, ensures=["result == (a is b)"])
+    R.library("operator.__lt__", signature="a, b", returns="bool", noalloc=True, exsures=["True"], ensures=["result == leaf_lt(a, b)"])
+    R.library("operator.__gt__", signature="a, b", returns="bool", noalloc=True, exsures=["True"], ensures=["result == leaf_gt(a, b)"])
 
     R.fields_of("_BinaryComparison", expected="any")
     for cls, pred, exs in (("Equals", "leaf_eq(other, self.expected)", None),
@@ -25,34 +26,34 @@ def register(R):
                            ("Is", "other is self.expected", None),
                            ("LessThan", "leaf_lt(other, self.expected)", ["True"]),
                            ("GreaterThan", "leaf_gt(other, self.expected)", ["True"])):
-        R.contract(B + "_BinaryComparison.match@" + cls, props=["C06"], params={"self": cls, "other": "any"}, pure=True,
+        matcher(R, B + "_BinaryComparison.match@" + cls, params={"self": cls, "other": "any"},
                    exsures=exs, ensures=["(result is None) == (%s)" % pred])
     R.fields_of("_FlippedEquals", _expected="any")
-    R.contract(B + "_FlippedEquals.match", props=["C06"], params={"other": "any"}, pure=True,
+    matcher(R, B + "_FlippedEquals.match", params={"other": "any"},
                ensures=["(result is None) == leaf_eq(other, self._expected)"])
     # matchee.startswith(expected): the matchee is any object with the str/bytes method
     R.shape("StrLike",
-            startswith=dict(signature="prefix", returns="bool", pure=True, noalloc=True, exsures=["True"],
+            startswith=dict(signature="prefix", returns="bool", noalloc=True, exsures=["True"],
                             ensures=["result == leaf_startswith(self, prefix)"]),
-            endswith=dict(signature="suffix", returns="bool", pure=True, noalloc=True, exsures=["True"],
+            endswith=dict(signature="suffix", returns="bool", noalloc=True, exsures=["True"],
                           ensures=["result == leaf_endswith(self, suffix)"]))
     R.fields_of("StartsWith", expected="any")
     R.fields_of("EndsWith", expected="any")
-    R.contract(B + "StartsWith.match", props=["C06"], params={"matchee": "StrLike"}, pure=True, exsures=["True"],
+    matcher(R, B + "StartsWith.match", params={"matchee": "StrLike"}, exsures=["True"],
                ensures=["(result is None) == leaf_startswith(matchee, self.expected)"])
-    R.contract(B + "EndsWith.match", props=["C06"], params={"matchee": "StrLike"}, pure=True, exsures=["True"],
+    matcher(R, B + "EndsWith.match", params={"matchee": "StrLike"}, exsures=["True"],
                ensures=["(result is None) == leaf_endswith(matchee, self.expected)"])
     R.fields_of("IsInstance", types="tuple[class]")
     R.function("leaf_isinstance_any", ["val", "seq"], "bool")
-    R.contract(B + "IsInstance.match", props=["C06"], params={"other": "any"}, pure=True,
+    matcher(R, B + "IsInstance.match", params={"other": "any"},
                ensures=["(result is None) == leaf_isinstance_any(other, self.types)"])
     R.fields_of("Contains", needle="any")
-    R.contract(B + "Contains.match", props=["C06"], params={"matchee": "Container"}, pure=True,
+    matcher(R, B + "Contains.match", params={"matchee": "Container"},
                ensures=["(result is None) == leaf_contains(matchee, self.needle)"])
     # `needle in matchee` on an arbitrary object: __contains__ may raise TypeError, which the matcher treats as "not contained"
     R.shape("Container",
-            __contains__=dict(signature="item", returns="bool", pure=True, noalloc=True,
+            __contains__=dict(signature="item", returns="bool", noalloc=True,
                               exsures=["subclass_of(cls_of(exc), TypeError)", "not leaf_contains(self, item)"],
                               ensures=["result == leaf_contains(self, item)"]))
-    R.contract(K + "_Always.match", props=["C06"], params={"value": "any"}, pure=True, ensures=["result is None"])
-    R.contract(K + "_Never.match", props=["C06"], params={"value": "any"}, pure=True, ensures=["result is not None"])
+    matcher(R, K + "_Always.match", params={"value": "any"}, ensures=["result is None"])
+    matcher(R, K + "_Never.match", params={"value": "any"}, ensures=["result is not None"])
